@@ -21,11 +21,13 @@ const (
 	ksMV         = 0.05
 )
 
-// ---- small dense linear algebra of the harness (dimension <= 3, cofactors) ----
+// ---- small dense linear algebra of the harness (dimension <= 4, Gauss-Jordan with pivoting) ----
+
+const smax = 4
 
 type smat struct {
 	n int
-	a [3][3]float64
+	a [smax][smax]float64
 }
 
 func smatFrom(n int, rows ...[]float64) smat {
@@ -49,38 +51,49 @@ func (m smat) sym() *mat.SymDense {
 	return s
 }
 
-func (m smat) det() float64 {
+// gaussJordan returns the determinant and the inverse.
+func (m smat) gaussJordan() (det float64, inv smat) {
+	n := m.n
 	a := m.a
-	switch m.n {
-	case 1:
-		return a[0][0]
-	case 2:
-		return a[0][0]*a[1][1] - a[0][1]*a[1][0]
+	inv.n = n
+	for i := 0; i < n; i++ {
+		inv.a[i][i] = 1
 	}
-	return a[0][0]*(a[1][1]*a[2][2]-a[1][2]*a[2][1]) - a[0][1]*(a[1][0]*a[2][2]-a[1][2]*a[2][0]) + a[0][2]*(a[1][0]*a[2][1]-a[1][1]*a[2][0])
-}
-
-func (m smat) inv() smat {
-	d := m.det()
-	a := m.a
-	var r smat
-	r.n = m.n
-	switch m.n {
-	case 1:
-		r.a[0][0] = 1 / d
-	case 2:
-		r.a[0][0], r.a[0][1], r.a[1][0], r.a[1][1] = a[1][1]/d, -a[0][1]/d, -a[1][0]/d, a[0][0]/d
-	case 3:
-		for i := 0; i < 3; i++ {
-			for j := 0; j < 3; j++ {
-				i1, i2 := (i+1)%3, (i+2)%3
-				j1, j2 := (j+1)%3, (j+2)%3
-				r.a[j][i] = (a[i1][j1]*a[i2][j2] - a[i1][j2]*a[i2][j1]) / d
+	det = 1
+	for c := 0; c < n; c++ {
+		p := c
+		for r := c + 1; r < n; r++ {
+			if math.Abs(a[r][c]) > math.Abs(a[p][c]) {
+				p = r
+			}
+		}
+		if p != c {
+			a[p], a[c] = a[c], a[p]
+			inv.a[p], inv.a[c] = inv.a[c], inv.a[p]
+			det = -det
+		}
+		piv := a[c][c]
+		det *= piv
+		for j := 0; j < n; j++ {
+			a[c][j] /= piv
+			inv.a[c][j] /= piv
+		}
+		for r := 0; r < n; r++ {
+			if r == c {
+				continue
+			}
+			f := a[r][c]
+			for j := 0; j < n; j++ {
+				a[r][j] -= f * a[c][j]
+				inv.a[r][j] -= f * inv.a[c][j]
 			}
 		}
 	}
-	return r
+	return det, inv
 }
+
+func (m smat) det() float64 { d, _ := m.gaussJordan(); return d }
+func (m smat) inv() smat    { _, i := m.gaussJordan(); return i }
 
 func (m smat) quad(v []float64) float64 {
 	s := 0.0
@@ -153,6 +166,10 @@ func mvCases() []mvCase {
 		{"d2 rho=-.9 scaled", []float64{2, 0}, smatFrom(2, []float64{4, -0.9 * 2 * 0.1}, []float64{-0.9 * 2 * 0.1, 0.01})},
 		{"d3 diag", []float64{0, -3, 2}, smatFrom(3, []float64{1, 0, 0}, []float64{0, 1e-2, 0}, []float64{0, 0, 25})},
 		{"d3 full", []float64{1, 0, -1}, smatFrom(3, []float64{4, 1, 0.5}, []float64{1, 3, 0.2}, []float64{0.5, 0.2, 2})},
+		{"d3 rho=-.45 scaled", []float64{-3, 0, 2}, smatFrom(3, []float64{1e-2, -0.45e-1, -0.45}, []float64{-0.45e-1, 1, -4.5}, []float64{-0.45, -4.5, 100})},
+		{"d4 diag", []float64{0, 1, -1, 2}, smatFrom(4, []float64{1, 0, 0, 0}, []float64{0, 4, 0, 0}, []float64{0, 0, 0.25, 0}, []float64{0, 0, 0, 9})},
+		{"d4 ar1 rho=.6", []float64{1, 0, -1, 0.5}, smatFrom(4, []float64{1, 0.6, 0.36, 0.216}, []float64{0.6, 1, 0.6, 0.36}, []float64{0.36, 0.6, 1, 0.6}, []float64{0.216, 0.36, 0.6, 1})},
+		{"d4 full scaled", []float64{-3, 0, 2, 0}, smatFrom(4, []float64{4, 1, -0.5, 0.02}, []float64{1, 3, 0.2, -0.03}, []float64{-0.5, 0.2, 2, 0.01}, []float64{0.02, -0.03, 0.01, 0.05})},
 	}
 }
 
@@ -160,7 +177,7 @@ func mvCases() []mvCase {
 func mvPoints(c mvCase) [][]float64 {
 	l := c.sigma.chol()
 	n := c.sigma.n
-	zs := [][]float64{{0, 0, 0}, {1, 0, 0}, {0, -1.5, 0}, {0.3, 0.7, -2}, {-3, 3, 1}, {6, -6, 6}, {0.01, 0.02, -0.03}}
+	zs := [][]float64{{0, 0, 0, 0}, {1, 0, 0, 0}, {0, -1.5, 0, 0.5}, {0.3, 0.7, -2, 1.1}, {-3, 3, 1, -2}, {6, -6, 6, -6}, {0.01, 0.02, -0.03, 0.04}}
 	var out [][]float64
 	for _, z := range zs {
 		x := make([]float64, n)
@@ -173,6 +190,35 @@ func mvPoints(c mvCase) [][]float64 {
 		out = append(out, x)
 	}
 	return out
+}
+
+// subsets returns every non-empty subset of {0..n-1} in increasing order of the bit mask.
+func subsets(n int) [][]int {
+	var out [][]int
+	for m := 1; m < 1<<n; m++ {
+		var s []int
+		for i := 0; i < n; i++ {
+			if m>>i&1 == 1 {
+				s = append(s, i)
+			}
+		}
+		out = append(out, s)
+	}
+	return out
+}
+
+func complement(s []int, n int) []int {
+	in := make([]bool, n)
+	for _, v := range s {
+		in[v] = true
+	}
+	var o []int
+	for i := 0; i < n; i++ {
+		if !in[i] {
+			o = append(o, i)
+		}
+	}
+	return o
 }
 
 func subv(a, b []float64) []float64 {
@@ -342,48 +388,67 @@ func checkMVNormal(t *vlib.T, c mvCase) {
 			r.fail("Normal integral(Prob)=1", "", "mass=%v", mass)
 		}
 	}
-	// marginals and conditionals: p(xu | xo) = p(x) / p(xo)
-	if n >= 2 {
-		for ob := 0; ob < n; ob++ {
-			var un []int
-			for i := 0; i < n; i++ {
-				if i != ob {
-					un = append(un, i)
-				}
-			}
-			mo, ok1 := d.MarginalNormal([]int{ob}, nil)
-			mu1 := d.MarginalNormalSingle(ob, nil)
-			if !ok1 {
-				r.fail("MarginalNormal", fmt.Sprint(ob), "failed")
-				continue
-			}
-			for _, x := range pts[:5] {
-				arg := fmt.Sprintf("ob=%d x=%v", ob, x)
-				wantM := normalLogPDF([]float64{x[ob]}, []float64{c.mu[ob]}, c.sigma.sub([]int{ob}))
-				if got := mo.LogProb([]float64{x[ob]}); math.Abs(got-wantM) > tolMVLogProb*(1+math.Abs(wantM)) {
-					r.fail("MarginalNormal.LogProb", arg, "%v want %v", got, wantM)
-				}
-				if got := mu1.LogProb(x[ob]); math.Abs(got-wantM) > tolMVLogProb*(1+math.Abs(wantM)) {
-					r.fail("MarginalNormalSingle.LogProb", arg, "%v want %v", got, wantM)
-				}
-				cd, ok2 := d.ConditionNormal([]int{ob}, []float64{x[ob]}, nil)
-				if !ok2 {
-					r.fail("ConditionNormal", arg, "failed")
-					continue
-				}
-				xu := make([]float64, len(un))
-				for i, k := range un {
-					xu[i] = x[k]
-				}
-				want := normalLogPDF(x, c.mu, c.sigma) - wantM
-				if got := cd.LogProb(xu); math.Abs(got-want) > 1e-8*(1+math.Abs(want))*cond {
-					r.fail("ConditionNormal: p(xu|xo)=p(x)/p(xo)", arg, "%v want %v", got, want)
-				}
+	// marginals and conditionals for every index subset: p(xu | xo) = p(x) / p(xo)
+	for i := 0; i < n; i++ {
+		m1 := d.MarginalNormalSingle(i, nil)
+		for _, x := range pts[:4] {
+			want := normalLogPDF([]float64{x[i]}, []float64{c.mu[i]}, c.sigma.sub([]int{i}))
+			if got := m1.LogProb(x[i]); math.Abs(got-want) > tolMVLogProb*(1+math.Abs(want)) {
+				r.fail("MarginalNormalSingle.LogProb", fmt.Sprintf("i=%d x=%v", i, x), "%v want %v", got, want)
 			}
 		}
 	}
+	for _, ob := range subsets(n) {
+		pick := func(v []float64, idx []int) []float64 {
+			o := make([]float64, len(idx))
+			for i, k := range idx {
+				o[i] = v[k]
+			}
+			return o
+		}
+		orders := [][]int{ob}
+		if len(ob) >= 2 { // the order of vars is the order of the marginal's coordinates
+			rev := make([]int, len(ob))
+			for i, v := range ob {
+				rev[len(ob)-1-i] = v
+			}
+			orders = append(orders, rev)
+		}
+		for _, vars := range orders {
+			mo, ok1 := d.MarginalNormal(vars, nil)
+			if !ok1 {
+				r.fail("MarginalNormal", fmt.Sprint(vars), "failed")
+				continue
+			}
+			for _, x := range pts[:4] {
+				want := normalLogPDF(pick(x, vars), pick(c.mu, vars), c.sigma.sub(vars))
+				if got := mo.LogProb(pick(x, vars)); math.Abs(got-want) > tolMVLogProb*(1+math.Abs(want))*cond {
+					r.fail("MarginalNormal.LogProb", fmt.Sprintf("vars=%v x=%v", vars, x), "%v want %v", got, want)
+				}
+			}
+			t.Count("marginals_checked", 1)
+		}
+		if len(ob) == n {
+			continue
+		}
+		un := complement(ob, n)
+		for _, x := range pts[:4] {
+			arg := fmt.Sprintf("observed=%v x=%v", ob, x)
+			wantM := normalLogPDF(pick(x, ob), pick(c.mu, ob), c.sigma.sub(ob))
+			cd, ok2 := d.ConditionNormal(ob, pick(x, ob), nil)
+			if !ok2 {
+				r.fail("ConditionNormal", arg, "failed")
+				continue
+			}
+			want := normalLogPDF(x, c.mu, c.sigma) - wantM
+			if got := cd.LogProb(pick(x, un)); math.Abs(got-want) > 1e-8*(1+math.Abs(want))*cond {
+				r.fail("ConditionNormal: p(xu|xo)=p(x)/p(xo)", arg, "%v want %v", got, want)
+			}
+		}
+		t.Count("conditionals_checked", 1)
+	}
 	// Quantile: whitening Quantile(p) with the harness Cholesky factor gives the normal quantiles of p.
-	for _, p := range [][]float64{{0.5, 0.5, 0.5}, {0.1, 0.9, 0.25}, {1e-6, 1 - 1e-6, 0.75}} {
+	for _, p := range [][]float64{{0.5, 0.5, 0.5, 0.5}, {0.1, 0.9, 0.25, 0.6}, {1e-6, 1 - 1e-6, 0.75, 1e-3}, {1e-12, 0.5, 1 - 1e-12, 0.99}} {
 		q := d.Quantile(nil, p[:n])
 		l := c.sigma.chol()
 		z := make([]float64, n)
@@ -400,9 +465,9 @@ func checkMVNormal(t *vlib.T, c mvCase) {
 	}
 	// Rand: every path has (x-mu)' Sigma^-1 (x-mu) = |z|^2 with z the normal answers of the
 	// environment, whatever square root of Sigma the sampler uses; first marginal follows its law.
-	K := 16
-	if n <= 2 {
-		K = 32
+	K := 32
+	if n >= 3 {
+		K = 16
 	}
 	inv := c.sigma.inv()
 	samplers := map[string]func(src rand.Source) []float64{
@@ -546,62 +611,75 @@ func checkMVStudent(t *vlib.T, c mvCase, nu float64) {
 			break
 		}
 	}
-	// marginal by integrating the joint density over the other coordinate (dim 2), and
-	// conditional = joint / marginal.
-	if n >= 2 {
-		for ob := 0; ob < n; ob++ {
-			ms := d.MarginalStudentsTSingle(ob, nil)
-			mo, ok1 := d.MarginalStudentsT([]int{ob}, nil)
-			if !ok1 {
-				r.fail("MarginalStudentsT", "", "failed")
-				continue
+	// marginals (every index subset, incl. by integrating the joint density over the other
+	// coordinate in dimension 2) and conditionals = joint / marginal
+	pick := func(v []float64, idx []int) []float64 {
+		o := make([]float64, len(idx))
+		for i, k := range idx {
+			o[i] = v[k]
+		}
+		return o
+	}
+	for i := 0; i < n; i++ {
+		ms := d.MarginalStudentsTSingle(i, nil)
+		for _, x := range pts[:4] {
+			arg := fmt.Sprintf("i=%d x=%v", i, x)
+			wantM := studentLogPDF([]float64{x[i]}, []float64{c.mu[i]}, c.sigma.sub([]int{i}), nu)
+			if got := ms.LogProb(x[i]); math.Abs(got-wantM) > tolMVLogProb*(1+math.Abs(wantM)) {
+				r.fail("MarginalStudentsTSingle.LogProb", arg, "%v want %v", got, wantM)
 			}
-			for _, x := range pts[:5] {
-				arg := fmt.Sprintf("ob=%d x=%v", ob, x)
-				wantM := studentLogPDF([]float64{x[ob]}, []float64{c.mu[ob]}, c.sigma.sub([]int{ob}), nu)
-				if got := mo.LogProb([]float64{x[ob]}); math.Abs(got-wantM) > tolMVLogProb*(1+math.Abs(wantM)) {
-					r.fail("MarginalStudentsT.LogProb", arg, "%v want %v", got, wantM)
-				}
-				if got := ms.LogProb(x[ob]); math.Abs(got-wantM) > tolMVLogProb*(1+math.Abs(wantM)) {
-					r.fail("MarginalStudentsTSingle.LogProb", arg, "%v want %v", got, wantM)
-				}
-				if n == 2 {
-					o := 1 - ob
-					so := math.Sqrt(c.sigma.a[o][o])
-					// integrate over the other coordinate y = mu + so*tan(th)
-					integral := glAdaptive(func(th float64) float64 {
-						y := append([]float64(nil), x...)
-						y[o] = c.mu[o] + so*math.Tan(th)
-						co := math.Cos(th)
-						return d.Prob(y) * so / (co * co)
-					}, -math.Pi/2, math.Pi/2, 1e-13)
-					if !closeRA(integral, math.Exp(wantM), 1e-7, 1e-300) {
-						r.fail("integral of joint = marginal", arg, "integral=%v marginal density=%v", integral, math.Exp(wantM))
-					}
-				}
-				cd, ok2 := d.ConditionStudentsT([]int{ob}, []float64{x[ob]}, nil)
-				if !ok2 {
-					r.fail("ConditionStudentsT", arg, "failed")
-					continue
-				}
-				var xu []float64
-				for k := 0; k < n; k++ {
-					if k != ob {
-						xu = append(xu, x[k])
-					}
-				}
-				want := studentLogPDF(x, c.mu, c.sigma, nu) - wantM
-				if got := cd.LogProb(xu); math.Abs(got-want) > 1e-8*(1+math.Abs(want))*cond {
-					r.fail("ConditionStudentsT: p(xu|xo)=p(x)/p(xo)", arg, "%v want %v", got, want)
-				}
-				if cd.Nu() != nu+1 {
-					r.fail("ConditionStudentsT.Nu", arg, "nu=%v want %v", cd.Nu(), nu+1)
+			if n == 2 {
+				o := 1 - i
+				so := math.Sqrt(c.sigma.a[o][o])
+				integral := glAdaptive(func(th float64) float64 {
+					y := append([]float64(nil), x...)
+					y[o] = c.mu[o] + so*math.Tan(th)
+					co := math.Cos(th)
+					return d.Prob(y) * so / (co * co)
+				}, -math.Pi/2, math.Pi/2, 1e-13)
+				if !closeRA(integral, math.Exp(wantM), 1e-7, 1e-300) {
+					r.fail("integral of joint = marginal", arg, "integral=%v marginal density=%v", integral, math.Exp(wantM))
 				}
 			}
 		}
 	}
+	for _, ob := range subsets(n) {
+		mo, ok1 := d.MarginalStudentsT(ob, nil)
+		if !ok1 {
+			r.fail("MarginalStudentsT", fmt.Sprint(ob), "failed")
+			continue
+		}
+		for _, x := range pts[:4] {
+			want := studentLogPDF(pick(x, ob), pick(c.mu, ob), c.sigma.sub(ob), nu)
+			if got := mo.LogProb(pick(x, ob)); math.Abs(got-want) > tolMVLogProb*(1+math.Abs(want))*cond {
+				r.fail("MarginalStudentsT.LogProb", fmt.Sprintf("vars=%v x=%v", ob, x), "%v want %v", got, want)
+			}
+		}
+		t.Count("marginals_checked", 1)
+		if len(ob) == n {
+			continue
+		}
+		un := complement(ob, n)
+		for _, x := range pts[:4] {
+			arg := fmt.Sprintf("observed=%v x=%v", ob, x)
+			wantM := studentLogPDF(pick(x, ob), pick(c.mu, ob), c.sigma.sub(ob), nu)
+			cd, ok2 := d.ConditionStudentsT(ob, pick(x, ob), nil)
+			if !ok2 {
+				r.fail("ConditionStudentsT", arg, "failed")
+				continue
+			}
+			want := studentLogPDF(x, c.mu, c.sigma, nu) - wantM
+			if got := cd.LogProb(pick(x, un)); math.Abs(got-want) > 1e-8*(1+math.Abs(want))*cond {
+				r.fail("ConditionStudentsT: p(xu|xo)=p(x)/p(xo)", arg, "%v want %v", got, want)
+			}
+			if cd.Nu() != nu+float64(len(ob)) {
+				r.fail("ConditionStudentsT.Nu", arg, "nu=%v want %v", cd.Nu(), nu+float64(len(ob)))
+			}
+		}
+		t.Count("conditionals_checked", 1)
+	}
 	// Rand: first marginal follows the univariate Student law (enumerated source).
-	if n <= 2 {
+	if n <= smax {
 		K := 16
 		var v0, w []float64
 		var wsum float64
